@@ -69,9 +69,12 @@ def one_case(ctx, res, stream, files, verbose, layout):
         res.count("size%254=" + {0: "0", 1: "1", 253: "253"}.get(len(c) % 254, "other") if len(c) else "size=0")
     ans = drv(req)
     mo = T.parse_outcome(ans[0])
-    st.compared += 1
     impl_writes = [(archive, tape)] if tape is not None else []
-    if (status, out, impl_writes) != (mo["status"], mo["out"], mo["writes"]):
+    if mo is None:
+        st.unmodelled += 1          # a name outside the modelled domain (S3): the oracles below still judge the real run
+    else:
+        st.compared += 1
+    if mo is not None and (status, out, impl_writes) != (mo["status"], mo["out"], mo["writes"]):
         res.disagree(stream, case, {"status": mo["status"], "out": mo["out"]}, {"status": status, "out": out, "tape_equal": impl_writes == mo["writes"]})
     if status != "ok0" or tape is None:
         res.violate(stream, "create failed although the sources fit", case, {"status": status, "out": out}, {"clause": "create_status"})
